@@ -785,6 +785,7 @@ func (s *sim) probeEvent(n *node, e any) {
 	case cstypes.EventRelock:
 		r.Probe("relock")
 		s.or.lockEvents(n, x.HRS, "relock")
+		s.byz.onLock(n, x.HRS) // a relock must refresh LockedRound: polkas of rounds below it stay powerless
 	case cstypes.EventPolka:
 		r.Probe("polka")
 	case cstypes.EventNewValidBlock:
